@@ -7,7 +7,7 @@ from .. import cases, monitors, oracles
 from . import _align_common as ac
 
 TITLE = "Gamma is 1 - observed/expected over the requested chance samples"
-DECIDING = ["M-GAMMA", "M-GAMMA-COUNT", "M-GAMMA-SAMPLE", "M-GAMMA-RECOMPUTE", "M-GAMMA-IDENTICAL", "M-GAMMA-SESSION", "M-GAMMA-CONCURRENT"]
+DECIDING = ["M-GAMMA-AFTER-EDIT", "M-GAMMA", "M-GAMMA-COUNT", "M-GAMMA-SAMPLE", "M-GAMMA-RECOMPUTE", "M-GAMMA-IDENTICAL", "M-GAMMA-SESSION", "M-GAMMA-CONCURRENT"]
 LEVEL = "exploration"
 RULE = ("seeded random small continua (2-4 annotators, labelled) x n_samples 1..40 x precision (none / numeric chosen "
         "so that N_required falls below, on and above n_samples / named levels when affordable) x sampler "
@@ -18,7 +18,9 @@ RULE = ("seeded random small continua (2-4 annotators, labelled) x n_samples 1..
         "same mode on its own sample, mean, gamma, gamma <= 1; plus continua of identical annotators (gamma == 1); plus sessions in which ONE sampler object and one "
         "continuum object serve 2-3 computations with different ground-truth subsets, modes and sample counts; two "
         "default-sampler computations running concurrently in two user threads on disjoint continua; first batches of "
-        "257-520 samples with a precision level. "
+        "257-520 samples with a precision level; sessions with an edit of the continuum object (add_annotator, merge of a unit-less annotator, add, remove, "
+        "reset_bounds) between two computations; a quarter of the computations run with cylp not importable or with CBC failing (always / every "
+        "third call) while every alignment is recomputed afterwards under the normal configuration. "
         "non-trivial = every case (>= 1 sample); distinct by SHA-1 of the case")
 ASSUMPTIONS = [
     "N_required is recomputed in float64 from the first n_samples chance disorders; any count between the ceilings of "
@@ -251,9 +253,12 @@ def run_gamma(case, continuum, dissim, precision):
         precision = "".join(list(precision))     # a name read at run time: equal to the literal, not the same object
     off = {"none": None, "zero": 0, "npbool": np.bool_(False)}.get(at.get("off"), False)
     on = {"one": 1, "npbool": np.bool_(True)}.get(at.get("on"), True)
-    res = continuum.compute_gamma(dissim, n_samples=case["n_samples"], precision_level=precision,
-                                  ground_truth_annotators=None if gt is None else _gt_form(gt, at.get("gt")), sampler=sampler,
-                                  fast=on if case["mode"] == "fast" else off, soft=on if case["mode"] == "soft" else off)
+    # solver configuration in force during the computation (cylp not importable / CBC failing always or now and then); the
+    # post-condition recomputes every alignment afterwards under the normal configuration
+    with ac.solver_config(ac.setup(None)[0], case.get("backend", "cbc")):
+        res = continuum.compute_gamma(dissim, n_samples=case["n_samples"], precision_level=precision,
+                                      ground_truth_annotators=None if gt is None else _gt_form(gt, at.get("gt")), sampler=sampler,
+                                      fast=on if case["mode"] == "fast" else off, soft=on if case["mode"] == "soft" else off)
     return res, sampler
 
 
@@ -267,7 +272,18 @@ def check_session(ctx, case):
     sampler = counting_sampler(case["sampler"])
     for k, call in enumerate(case["session"]):
         sub = dict(case, **call)
-        gt = call.get("ground_truth") or sorted(cspec["ann"].keys())
+        if call.get("edit"):
+            # the continuum object is edited between two computations (same dissimilarity object, maybe the same mode)
+            try:
+                ac.apply_edit(continuum, call["edit"])
+            except Exception as e:
+                ctx.fail_exc(f"session:edit-raises:{type(e).__name__}", e, monitor="harness")
+                return
+            ctx.count("M-GAMMA-AFTER-EDIT")
+        gt = call.get("ground_truth") or sorted(continuum.annotators)
+        gt = [a for a in gt if a in continuum.annotators]
+        if sum(1 for a in gt if len(continuum._annotations[a])) < 1 or len(gt) < 2:
+            continue
         sampler.handed = []
         ctx.count("M-GAMMA-SESSION")
         try:
@@ -410,6 +426,7 @@ def gen_case(ctx, dspecs):
             "np_seed": rng.randrange(2 ** 31), "identical": identical}
     if target:
         case["target_N"] = target
+    case["backend"] = rng.choice(["cbc", "cbc", "cbc", "glpk", "cbcfail", "cbcfail3"])
     case["arg_types"] = {"precision": rng.choice(["float", "float", "float64", "float32"]),
                          "off": rng.choice(["false", "false", "none", "zero", "npbool"]), "on": rng.choice(["true", "true", "one", "npbool"]),
                          "gt": rng.choice(["list", "list", "tuple", "set", "generator", "keys", "sortedset", "reversed"])}
@@ -420,6 +437,16 @@ def gen_case(ctx, dspecs):
             calls.append({"ground_truth": rng.choice([None, sorted(rng.sample(names, rng.randint(2, n)))]),
                           "n_samples": rng.choice([1, 2, 4, 6]), "precision": rng.choice([None, None, 0.5]),
                           "mode": rng.choice(["exact", "fast", "soft"]), "np_seed": rng.randrange(2 ** 31)})
+        if rng.random() < 0.6 and not identical:
+            # edits of the continuum object between the calls; afterwards the same mode as before, no ground-truth subset
+            ops = ac.gen_edit_ops(rng, cspec, cases.dissim_labels(dspec) or cases.LABELS_SMALL, len(calls) - 1)
+            for c_prev, c_next, op in zip(calls, calls[1:], ops):
+                if op[0] in ("touch_far",):
+                    continue
+                c_next["edit"] = op
+                c_next["ground_truth"] = None
+                if rng.random() < 0.7:
+                    c_next["mode"] = c_prev["mode"]
         case = {"continuum": cspec, "dissim": dspec, "sampler": case["sampler"], "session": calls, "identical": identical}
     return case
 
@@ -453,6 +480,16 @@ def run(ctx):
                 "mode": mode, "ground_truth": None, "np_seed": 21 + k0, "identical": False, "arg_types": at}
         ctx.begin_case(case)
         ctx.observe("mode", "deterministic-first-block(argument forms)")
+        check_case(ctx, case)
+    # ... a continuum object edited between two computations with the same dissimilarity object and mode
+    for k0, (mode0, op0) in enumerate([("exact", ["add_annotator", "zoe"]), ("soft", ["merge_empty_annotator", "yan"]), ("fast", ["add_annotator", "abe"]),
+                                       ("exact", ["add", "alex", 3.0, 6.0, "b"])]):
+        cs0 = cases.gen_continuum(rng, n_annot=2, sizes=[3, 3], family="grid", labels=cases.LABELS_SMALL, names=["alex", "bob"])
+        case = {"continuum": cs0, "dissim": comb0, "sampler": "shuffle_float", "identical": False,
+                "session": [{"ground_truth": None, "n_samples": 2, "precision": None, "mode": mode0, "np_seed": 51 + k0},
+                            {"ground_truth": None, "n_samples": 2, "precision": None, "mode": mode0, "np_seed": 61 + k0, "edit": op0}]}
+        ctx.begin_case(case)
+        ctx.observe("mode", "deterministic-first-block(edit between two computations)")
         check_case(ctx, case)
     # ... the ground-truth annotators as a generator / set / dict view (an 'iterable of annotators')
     for k0, form in enumerate(["generator", "set", "keys", "reversed"]):
